@@ -102,6 +102,22 @@ pub fn triage_crash(prop: &str, tier: Tier, seed: u64, exe: &Path) -> i32 {
         eprintln!("INCONCLUSIVE property={prop}: engine died on a signal and no recorded case reproduces it alone");
         return 2;
     };
+    // a property that does not own crashes: exclude the crashing history by construction and let the supervisor
+    // search on behind it (exit code 3 = "skip recorded, run again")
+    {
+        let niche = prop == "C20" && case.get("kind").and_then(|k| k.as_str()) == Some("niche");
+        let stat = prop == "C10" && case.to_string().contains("\"from_static\"");
+        if !CRASH_OWNERS.contains(&prop) && !niche && !stat && case.get("kind").and_then(|k| k.as_str()) == Some("history") {
+            if let Some(h) = history_from_value(&case) {
+                use std::io::Write;
+                let f = dir.join("skip.txt");
+                if let Ok(mut fh) = std::fs::OpenOptions::new().create(true).append(true).open(&f) {
+                    let _ = writeln!(fh, "{}", digest(&h));
+                    return 3;
+                }
+            }
+        }
+    }
     // delta debugging over the operation list
     if case.get("kind").and_then(|k| k.as_str()) == Some("history") {
         let mut budget = 300;
